@@ -26,6 +26,8 @@ THEOREMS = {
         "tsdfs_leaves_eq",
         "stateless_bfs_dist_eq",
         "numEdges_eq",
+        "degrees_eq",
+        "dimensions_eq",
         "adjmap_numEdges_refuted",
         "ts_numEdges_tombstone_refuted",
         "toSegment_panics",
@@ -117,7 +119,7 @@ SPEC = {
     "lean_modules": ["Dawgs.Props.C14"],
     "theorems_by_module": THEOREMS,
     "gate_modules": ["Dawgs.Model.C14", "Dawgs.Spec.C14", "Dawgs.Proofs.C14", "Dawgs.Proofs.C14TS", "Dawgs.Proofs.C14Csr", "Dawgs.Proofs.C14Reach",
-                     "Dawgs.Proofs.C14Bfs", "Dawgs.Proofs.C14Norm", "Dawgs.Proofs.C14Seg", "Dawgs.Proofs.C14Trav", "Dawgs.Proofs.C14TravInst", "Dawgs.Proofs.C14Edges",
+                     "Dawgs.Proofs.C14Bfs", "Dawgs.Proofs.C14Norm", "Dawgs.Proofs.C14Seg", "Dawgs.Proofs.C14Trav", "Dawgs.Proofs.C14TravInst", "Dawgs.Proofs.C14Edges", "Dawgs.Proofs.C14Dims",
                      "Dawgs.Proofs.C14Glue", "Dawgs.Props.C14"],
     "suites": [{"name": "c14", "model_suite": "c14" if MODEL_MODE == "fixed" else "c14old", "monitor_suite": "c14mon",
                 "keep_prefix": 2, "shrink_budget": 60, "thorough_seeds": 1}],
@@ -148,7 +150,7 @@ SPEC = {
         "EachAdjacentNode multiplicity is not part of the property: answers are compared as sets by the monitor and as exact callback sequences by the model tie",
         "TSDFS/TSBFS/TSStatelessBFS theorems need `Terminates` (maxDepth > 0, or a rank function certifying the filtered graph acyclic); an admitted cycle with maxDepth <= 0 is the documented non-termination of the real loops and is never generated",
         "TSStatelessBFS weights: small integral float64 values in the tie (products exact), naturals in the model",
-        "Dimensions / Degrees: modelled, tied exactly and judged by the monitor (node count exact, largest row between the number of distinct neighbours and the number of incident edges, exact for the set-valued containers); no Lean theorem",
+        "Dimensions / Degrees: proved equal across adjacency map, store and (out/in) CSR (degrees_eq, dimensions_eq); for CSR under `both` and for projections the callback count has multiplicity and is only tied + judged by the monitor within [distinct neighbours, incident edges]",
         "a triple store carrying DeleteEdge tombstones: the store's own adjacency is proved (ts_adj_eq); its EachEdge/EachAdjacentEdge/NumEdges, its projections and traversals ignore the tombstones (known findings, stated precisely by proj_tombstone_partial, numEdges_eq, tsContainers)",
         "Reach/BFSTree theorems are stated for the queue loops with fuel NumNodes+1 (proved sufficient, reach_fuel_sufficient); the Go loops are unbounded",
         "BFSTreeFile.ReadEach is exercised only on files below one 4096-byte read buffer, where the current code deterministically yields no record",
@@ -186,5 +188,5 @@ MANIFEST = {
             "fuel |nodes|+1 proved sufficient; BFSTree reports every reachable node once with the length of a SHORTEST walk; Normalize is an isomorphism; segment marshalling round-trips; TSDFS/TSBFS/TSStatelessBFS hand their handler exactly the maximal filter-admitted walks (multiset equality with the naive enumeration, termination with an explicit fuel bound under maxDepth>0 or an acyclicity certificate); NumEdges of CSR / store / every projection equals the edge-list count. `C14_full` is the statement about the code as it is (F2 repaired by 789c790) and is proved (`c14`); the pre-repair "
             "definitions are kept only for the `_old` refutations. The models are transcriptions of container/*.go "
             "compared with the real code on exhaustive small graphs and random multigraphs every run, and the real answers are judged by the spec monitor.",
-    "note": "BFSTreeFile (gzip file round trip) and Dimensions: tie + monitor only (no Lean theorem). Trusted: Lean kernel, roaring bitmaps, Go maps, deque, gzip.",
+    "note": "BFSTreeFile (gzip file round trip): tie + monitor only (no Lean theorem). Trusted: Lean kernel, roaring bitmaps, Go maps, deque, gzip.",
 }
